@@ -270,6 +270,31 @@
 //   - "list_slices" (per function): byte slices are lists of integers in this
 //     function even if the spec file has "abstract_bytes", and `xs[lo:hi]` on a
 //     list is take/drop also when the function is traced.
+//   - `for cond { body }` (no init / post statement, not nested in a loop and
+//     without a loop inside) is `goFor fuel state fun it st => …` (TrPrelude):
+//     at most `fuel` iterations, `fuel : Nat` being an extra parameter (`fuel2`,
+//     … for further loops; the copies of one loop in a duplicated continuation
+//     share it); the condition is evaluated — and traced — at the start of every
+//     iteration; the loop state are the variables declared outside and assigned
+//     inside, and the trace; `break` / `continue` / `return` work as in range
+//     loops (deferred calls run at a `return` from inside the loop); an opaque
+//     call inside the loop is a parameter `o<k>_f : Nat → T` applied to the
+//     iteration number, so the call may have a different result in every
+//     iteration and theorems quantify over all result *sequences*.  The function
+//     becomes partial: `none` is a panic or "the bound was reached before the loop
+//     ended", so a theorem `… = some r → P r` for all `fuel` covers every finite run;
+//   - a deferred closure that is run inline may itself contain `defer`
+//     statements: they run, last in first out, when the closure's body ends and
+//     before the defers registered earlier by the enclosing function;
+//   - `var x T = v` is `x := v` with v converted to T; `T{}` of an abstract
+//     struct type (outside "symbolic" / "refs") is the value `()`; a concrete
+//     value made by a traced call and stored in an abstract interface
+//     (`var s I = pkg.New(n)`) is non-nil, the call stays in the trace; in a keyed
+//     literal of a translated struct a call in a field of abstract type (which
+//     the structure does not have) is dropped silently when the callee is listed
+//     under "pure" or "ignore" (otherwise it is an error in traced functions);
+//   - the statement `func() { … }()` (no parameters, no results) runs its body
+//     in place, with its own defers; a `return` inside ends the literal only.
 //
 // Anything else is a translation error: the generated definition is replaced
 // by a marker that makes the Tie theorem fail, i.e. a broken obligation.
@@ -774,6 +799,10 @@ type fctx struct {
 	nonNil      map[types.Object]bool
 	paramMut    []string // pointer parameters whose fields are assigned (returned after the receiver)
 	elemVars    map[types.Object]string // loop variables over symbolic slices of abstract elements: Lean type
+	forIter     string                  // inside a `for cond {}` loop: the Lean variable holding the iteration number
+	forParams   map[string]bool         // opaque parameters that are functions of the iteration number
+	nFor        int                     // number of `for cond {}` loops translated so far
+	forFuel     map[*ast.ForStmt]string // their bound parameters
 }
 
 type ex struct {
@@ -1368,6 +1397,7 @@ func (c *fctx) litEntry(cl *ast.CompositeLit) string {
 // slice, a field of a library struct) into an extra parameter holding its value.
 func (c *fctx) opaqueValue(e ast.Expr) ex {
 	if c.loop != nil && !c.spec.LoopOpaque {
+		// (also inside `for cond {}` loops: a per-iteration reading is not implemented)
 		fail("value %s read from an abstract object inside a loop", c.show(e))
 	}
 	lt := c.t.valType(c.typeOf(e))
@@ -1805,7 +1835,7 @@ func (c *fctx) call(x *ast.CallExpr) ex {
 		}
 	}
 	// opaque call
-	if c.loop != nil && !c.spec.LoopOpaque {
+	if c.loop != nil && !c.spec.LoopOpaque && c.forIter == "" {
 		// one parameter cannot stand for the results of the call in every iteration
 		fail("opaque call %s inside a loop", c.show(x))
 	}
@@ -1818,8 +1848,20 @@ func (c *fctx) call(x *ast.CallExpr) ex {
 	if !seen {
 		c.nOpaque++
 		name = fmt.Sprintf("o%d_%s", c.nOpaque, sanitize(lastName(c.show(x.Fun))))
-		c.opaque = append(c.opaque, fmt.Sprintf("(%s : %s)", name, lt))
+		if c.forIter != "" {
+			// inside a `for cond {}` loop: one result per iteration
+			c.opaque = append(c.opaque, fmt.Sprintf("(%s : Nat → %s)", name, lt))
+			c.forParams[name] = true
+		} else {
+			c.opaque = append(c.opaque, fmt.Sprintf("(%s : %s)", name, lt))
+		}
 		c.opaqueCalls[x] = name
+	}
+	if c.forParams[name] {
+		if c.forIter == "" {
+			fail("opaque call %s is reached both inside and outside a for loop", c.show(x))
+		}
+		name = "(" + name + " " + c.forIter + ")"
 	}
 	if c.trace && !c.matches(c.spec.Pure, x) {
 		return ex{code: "«call:" + c.traceEntry(x) + "»" + name}
@@ -2264,17 +2306,18 @@ func (c *fctx) runDefers(i int, final func() string) string {
 		}
 		return "let tr := tr ++ " + d.traceVar + "\n" + c.runDefers(i-1, final)
 	}
-	prevEnd, prevLoop, prevDefers := c.onEnd, c.loop, c.defers
+	prevEnd, prevLoop, prevDefers, prevIter := c.onEnd, c.loop, c.defers, c.forIter
 	var self func() string
 	self = func() string {
-		c.onEnd, c.loop, c.defers = prevEnd, prevLoop, prevDefers
+		curEnd, curLoop, curDefers, curIter := c.onEnd, c.loop, c.defers, c.forIter
+		c.onEnd, c.loop, c.defers, c.forIter = prevEnd, prevLoop, prevDefers, prevIter
 		out := c.runDefers(i-1, final)
-		c.onEnd, c.loop, c.defers = self, nil, nil
+		c.onEnd, c.loop, c.defers, c.forIter = curEnd, curLoop, curDefers, curIter
 		return out
 	}
-	c.onEnd, c.loop, c.defers = self, nil, nil
+	c.onEnd, c.loop, c.defers, c.forIter = self, nil, nil, ""
 	code := c.stmts(d.body)
-	c.onEnd, c.loop, c.defers = prevEnd, prevLoop, prevDefers
+	c.onEnd, c.loop, c.defers, c.forIter = prevEnd, prevLoop, prevDefers, prevIter
 	return code
 }
 
@@ -2326,41 +2369,9 @@ func (c *fctx) stateTuple(vars []string) string {
 	return "(" + strings.Join(vars, ", ") + ")"
 }
 
-// rangeLoop translates `for i, x := range xs { body }` over a translatable
-// slice: the variables declared outside the loop and assigned inside it (plus
-// the call trace) are the loop state; the body maps a state and an element to
-// `Step.next state'` (also for continue), `Step.brk state'` or `Step.ret r`
-// (a return of the enclosing function; a range loop nested in the body passes
-// such a return on to the outer loop as `Step.ret r`).
-func (c *fctx) rangeLoop(x *ast.RangeStmt, rest []ast.Stmt) string {
-	if x.Tok != token.DEFINE && (x.Key != nil || x.Value != nil) {
-		fail("range with assignment to existing variables")
-	}
-	sl, ok := c.typeOf(x.X).Underlying().(*types.Slice)
-	mp, isMap := c.typeOf(x.X).Underlying().(*types.Map)
-	isMap = isMap && c.t.leanType(mp.Key()) != "" && c.t.leanType(mp.Elem()) != ""
-	if (!ok || c.t.leanType(c.typeOf(x.X)) == "") && !isMap {
-		fail("range over %s", c.typeOf(x.X))
-	}
-	elT := ""
-	if isMap {
-		elT = "(" + c.t.leanType(mp.Key()) + " × " + c.t.leanType(mp.Elem()) + ")"
-	} else {
-		elT = c.t.leanType(sl.Elem())
-		if lt := c.t.leanType(c.typeOf(x.X)); elT == "" && strings.HasPrefix(lt, "(List ") {
-			// a slice type declared symbolic ("[]pkg.T": "(List String)"): the elements
-			// are tokens; the loop variable may be handed to an "fn" callee
-			elT = strings.TrimSuffix(strings.TrimPrefix(lt, "(List "), ")")
-			if id, ok := x.Value.(*ast.Ident); ok && c.p.info.Defs[id] != nil {
-				if c.elemVars == nil {
-					c.elemVars = map[types.Object]string{}
-				}
-				c.elemVars[c.p.info.Defs[id]] = elT
-			}
-		}
-	}
-	// carried variables
-	var vars, varTypes []string
+// carriedVars lists the variables declared outside the loop statement x and
+// assigned inside its body (with their Lean types): the loop state.
+func (c *fctx) carriedVars(x ast.Node, body *ast.BlockStmt) (vars, varTypes []string) {
 	seen := map[string]bool{}
 	add := func(id *ast.Ident) {
 		obj := c.p.info.Uses[id]
@@ -2381,7 +2392,7 @@ func (c *fctx) rangeLoop(x *ast.RangeStmt, rest []ast.Stmt) string {
 		vars = append(vars, leanIdent(id.Name))
 		varTypes = append(varTypes, lt)
 	}
-	ast.Inspect(x.Body, func(n ast.Node) bool {
+	ast.Inspect(body, func(n ast.Node) bool {
 		var targets []ast.Expr
 		switch s := n.(type) {
 		case *ast.AssignStmt:
@@ -2418,6 +2429,123 @@ func (c *fctx) rangeLoop(x *ast.RangeStmt, rest []ast.Stmt) string {
 		}
 		return true
 	})
+	return vars, varTypes
+}
+
+// forLoop translates `for cond { body }` (no init / post statement, not nested
+// in another loop, no loop inside it): `goFor fuel state fun it st => …` runs at
+// most `fuel` iterations (an extra parameter `fuel : Nat`, `fuel<k>` for the k-th
+// such loop of the function; copies of the loop in a duplicated continuation share it), the condition is evaluated (and traced) at the
+// start of every iteration; the loop state are the variables declared outside
+// and assigned inside (and the trace); an opaque call inside the loop is a
+// parameter `o<k>_f : Nat → T` applied to the iteration number `it`.  The
+// function becomes partial: `none` also stands for "the bound was reached before
+// the loop ended", so theorems hold for every fuel.
+func (c *fctx) forLoop(x *ast.ForStmt, rest []ast.Stmt) string {
+	if x.Init != nil || x.Post != nil {
+		fail("for statement with init / post statement")
+	}
+	if c.loop != nil || c.forIter != "" {
+		fail("for statement nested in a loop")
+	}
+	ast.Inspect(x.Body, func(n ast.Node) bool {
+		switch n.(type) {
+		case *ast.ForStmt, *ast.RangeStmt:
+			fail("loop inside a for statement")
+		case *ast.FuncLit:
+			return false
+		}
+		return true
+	})
+	vars, varTypes := c.carriedVars(x, x.Body)
+	if c.trace {
+		vars = append(vars, "tr")
+		varTypes = append(varTypes, "(List (String × List String))")
+	}
+	sigma := "Unit"
+	if len(varTypes) == 1 {
+		sigma = varTypes[0]
+	} else if len(varTypes) > 1 {
+		sigma = "(" + strings.Join(varTypes, " × ") + ")"
+	}
+	if c.forParams == nil {
+		c.forParams, c.forFuel = map[string]bool{}, map[*ast.ForStmt]string{}
+	}
+	// the two copies of a loop in a duplicated continuation share the bound (only one runs)
+	fuel, it := c.forFuel[x], "it"
+	if fuel == "" {
+		c.nFor++
+		fuel = "fuel"
+		if c.nFor > 1 {
+			fuel = fmt.Sprintf("fuel%d", c.nFor)
+		}
+		c.opaque = append(c.opaque, fmt.Sprintf("(%s : Nat)", fuel))
+		c.forFuel[x] = fuel
+	}
+	savedPartial := c.partial
+	c.loop, c.partial, c.forIter = &loopCtx{state: vars}, false, it
+	var body string
+	if x.Cond == nil {
+		body = c.stmts(x.Body.List)
+	} else {
+		body = c.withEx(c.expr(x.Cond), func(code string) string {
+			return fmt.Sprintf("if %s then\n%s\nelse\n  «step»(.brk %s)", code, indent(c.stmts(x.Body.List)), c.stateTuple(vars))
+		})
+	}
+	bodyPartial := c.partial
+	c.loop, c.partial, c.forIter = nil, true, ""
+	_ = savedPartial
+	fn, wrap := "goFor", ""
+	if bodyPartial {
+		fn, wrap = "goFor?", "some "
+	}
+	body = strings.ReplaceAll(body, "«step»", wrap)
+	destr := ""
+	if len(vars) > 1 {
+		destr = "let " + c.stateTuple(vars) + " := st\n"
+	} else if len(vars) == 1 {
+		destr = "let " + vars[0] + " := st\n"
+	}
+	loop := fmt.Sprintf("%s (σ := %s) (ρ := «rho») %s %s fun (%s : Nat) st =>\n%s", fn, sigma, fuel, c.stateTuple(vars), it, indent(destr+body))
+	after := c.stmts(rest)
+	return fmt.Sprintf("match %s with\n| none => none\n| some (.inr r) => «ret»r\n| some (.inl st) =>\n%s", loop, indent(destr+after))
+}
+
+// rangeLoop translates `for i, x := range xs { body }` over a translatable
+// slice: the variables declared outside the loop and assigned inside it (plus
+// the call trace) are the loop state; the body maps a state and an element to
+// `Step.next state'` (also for continue), `Step.brk state'` or `Step.ret r`
+// (a return of the enclosing function; a range loop nested in the body passes
+// such a return on to the outer loop as `Step.ret r`).
+func (c *fctx) rangeLoop(x *ast.RangeStmt, rest []ast.Stmt) string {
+	if x.Tok != token.DEFINE && (x.Key != nil || x.Value != nil) {
+		fail("range with assignment to existing variables")
+	}
+	sl, ok := c.typeOf(x.X).Underlying().(*types.Slice)
+	mp, isMap := c.typeOf(x.X).Underlying().(*types.Map)
+	isMap = isMap && c.t.leanType(mp.Key()) != "" && c.t.leanType(mp.Elem()) != ""
+	if (!ok || c.t.leanType(c.typeOf(x.X)) == "") && !isMap {
+		fail("range over %s", c.typeOf(x.X))
+	}
+	elT := ""
+	if isMap {
+		elT = "(" + c.t.leanType(mp.Key()) + " × " + c.t.leanType(mp.Elem()) + ")"
+	} else {
+		elT = c.t.leanType(sl.Elem())
+		if lt := c.t.leanType(c.typeOf(x.X)); elT == "" && strings.HasPrefix(lt, "(List ") {
+			// a slice type declared symbolic ("[]pkg.T": "(List String)"): the elements
+			// are tokens; the loop variable may be handed to an "fn" callee
+			elT = strings.TrimSuffix(strings.TrimPrefix(lt, "(List "), ")")
+			if id, ok := x.Value.(*ast.Ident); ok && c.p.info.Defs[id] != nil {
+				if c.elemVars == nil {
+					c.elemVars = map[types.Object]string{}
+				}
+				c.elemVars[c.p.info.Defs[id]] = elT
+			}
+		}
+	}
+	// carried variables
+	vars, varTypes := c.carriedVars(x, x.Body)
 	if c.trace {
 		vars = append(vars, "tr")
 		varTypes = append(varTypes, "(List (String × List String))")
@@ -2491,9 +2619,18 @@ func (c *fctx) rangeLoop(x *ast.RangeStmt, rest []ast.Stmt) string {
 	})
 }
 
+// closureEnd ends the body of a deferred closure that is being run inline: the
+// defers the closure registered itself run first, then the enclosing exit goes on.
+func (c *fctx) closureEnd() string {
+	if len(c.defers) == 0 {
+		return c.onEnd()
+	}
+	return c.runDefers(len(c.defers)-1, c.onEnd)
+}
+
 func (c *fctx) stmts(list []ast.Stmt) string {
 	if len(list) == 0 && c.loop == nil && c.onEnd != nil {
-		return c.onEnd()
+		return c.closureEnd()
 	}
 	if len(list) == 0 && c.loop != nil {
 		return "«step»(.next " + c.stateTuple(c.loop.state) + ")"
@@ -2513,7 +2650,7 @@ func (c *fctx) stmts(list []ast.Stmt) string {
 	switch x := s.(type) {
 	case *ast.ReturnStmt:
 		if len(x.Results) == 0 && c.onEnd != nil && c.loop == nil {
-			return c.onEnd()
+			return c.closureEnd()
 		}
 		if len(x.Results) == 0 {
 			var vals []string
@@ -2607,6 +2744,8 @@ func (c *fctx) stmts(list []ast.Stmt) string {
 		c.loopEnd[end] = c.nOpaque
 		return fmt.Sprintf("let tr := tr ++ [(\"for\", [%q])]\n", head) +
 			c.stmts(append(append(append([]ast.Stmt{}, x.Body.List...), end), rest...))
+	case *ast.ForStmt:
+		return c.forLoop(x, rest)
 	case *ast.TypeSwitchStmt:
 		if c.typeSwitchSubjectSymbolic(x) {
 			return c.typeSwitch(x, rest)
